@@ -3,6 +3,7 @@ from __future__ import annotations
 
 import glob
 import os
+import pathlib
 import shutil
 import tempfile
 
@@ -97,17 +98,24 @@ def run(ctx):
         cuts = sorted(rng.sample(range(1, len(doc)), k - 1)) if len(doc) > 1 and k > 1 else []
         parts = [doc[a:b] for a, b in zip([0] + cuts, cuts + [len(doc)])]
         paths = []
+        names = rng.sample(["main", "analysis", "Z_user", "a_common", "f10", "f2", "B", "b", "DECAY", "my", "part-1", "part_0"], len(parts))
         for i, part in enumerate(parts):
             text = lay.render(part, end_line=rng.random() < 0.5)
             if rng.random() < 0.3:
                 text = text.rstrip("\r\n \t")           # a file need not end with a line end
                 if text.endswith(tuple(gen.COMMENTS)) and False:
                     pass
-            path = os.path.join(tmp, f"{label}_{i}.dec")
+            # file names in no particular order (the order of the arguments is the order of the text, whatever the names are:
+            # `main.dec` before `analysis.dec`, `f2` before `f10`, `z/common.dec` before `a/user.dec`), as strings or paths
+            sub = os.path.join(tmp, label, rng.choice(["", "", "z", "a", "Sub dir"]))
+            os.makedirs(sub, exist_ok=True)
+            path = os.path.join(sub, names[i] + rng.choice([".dec", ".dec", ".DEC", ".txt", ""]))
             bom = rng.random() < 0.4
             with open(path, "w", encoding="utf-8-sig" if bom else "utf-8", newline="") as f:
                 f.write(text)
-            paths.append(path)
+            paths.append(path if rng.random() < 0.7 else pathlib.Path(path))
+        if len(paths) > 1:
+            res.count("file_names_ascending" if [str(x) for x in paths] == sorted(str(x) for x in paths) else "file_names_not_ascending")
         return paths
 
     def one(doc, label, heavy=True, base_text=None):
@@ -178,7 +186,8 @@ def run(ctx):
                         with open(path, "w", encoding="utf-8-sig" if rng.random() < 0.4 else "utf-8", newline="") as f:
                             f.write(text)
                         paths = [path]
-                    case = dict(case0, packaging=mode, files=[open(x, "rb").read().decode("utf-8", "replace")[:1500] for x in paths])
+                    case = dict(case0, packaging=mode, files=[open(x, "rb").read().decode("utf-8", "replace")[:1500] for x in paths],
+                                file_names=[os.path.relpath(str(x), tmp) for x in paths])
                     q = DecFileParser(*paths)
                     tie_files(paths, q._dec_file, {"kind": "files", "label": label})
                     if len(q._dec_file) < 200000:
